@@ -75,6 +75,14 @@ def build_harness():
     return rc == 0, out
 
 
+# which regenerated tables each property's model, theorems or generators use (enums: every Lean file)
+GEN_DEPENDS = {
+    'C01': ['enums', 'parse'], 'C02': ['enums', 'lex', 'parse'], 'C03': ['enums', 'lex', 'parse'], 'C04': ['enums', 'lex', 'parse'],
+    'C05': ['enums', 'parse'], 'C06': ['enums'], 'C07': ['enums'], 'C08': ['enums'], 'C09': ['enums'], 'C10': ['enums', 'runtime'],
+    'C11': ['enums'], 'C12': ['enums'], 'C13': ['enums', 'lex'], 'C14': ['enums', 'lex'], 'C15': ['enums'], 'C16': ['enums'],
+    'C17': ['enums'], 'C18': ['enums', 'lex', 'parse'], 'C19': ['enums'], 'C20': ['enums', 'parse'],
+}
+
 # extra property modules per property: (module under Garnish.Props, namespace to list, regex on the short name or None)
 AUDIT_EXTRA = {
     'C01': [('C01Compile', 'Garnish.Props.C01', None), ('C01Build', 'Garnish.Props.C01Build', None)],
@@ -400,8 +408,22 @@ def standard_proof_obligations(ctx, lean_targets=None):
         # driver and harness binaries as they are
         ctx.notes.append('VERIF_DEV_SKIP_PROOFS=1: proof obligations not re-checked in this run')
         return os.path.exists(DRV), os.path.exists(HBIN)
+    # the harness is built first: the table translators fall back on (and cross-check against) its TABLES dump of the
+    # compiled code when the source text does not have the form their extraction expects
+    hok, hout = build_harness()
+    if not hok:
+        ctx.oblige('cargo build harness against /repo', 'harness', False, hout[-3000:])
     ok, out = gen_tables()
-    ctx.oblige('gen_tables', 'translator', ok, out[-2000:] if not ok else '')
+    # a table that can no longer be regenerated breaks the tie only for the properties whose model or generators use it
+    failed = re.findall(r'^GEN (\w+) FAILED', out, re.M)
+    needs = GEN_DEPENDS.get(prop, [])
+    for g in failed:
+        if g in needs:
+            ctx.oblige(f'gen_tables.{g}', 'translator', False, out[-2500:])
+        else:
+            ctx.notes.append(f'table generator `{g}` failed; no model or generator of {prop} uses its tables')
+    if not failed:
+        ctx.oblige('gen_tables', 'translator', True, '')
     ok, out = build_lean(audit_modules(prop) + (lean_targets or []))
     if not ok:
         # find which theorem(s) failed
@@ -427,9 +449,6 @@ def standard_proof_obligations(ctx, lean_targets=None):
             ctx.oblige(f'leanchecker {m}', 'audit', rc == 0, out[-1500:] if rc != 0 else '')
     bad = grep_audit()
     ctx.oblige('grep-audit(sorry|admit|axiom|native_decide|bv_decide|implemented_by|unsafe)', 'audit', not bad, '\n'.join(bad[:10]))
-    hok, hout = build_harness()
-    if not hok:
-        ctx.oblige('cargo build harness against /repo', 'harness', False, hout[-3000:])
     return ok_drv, hok
 
 
